@@ -457,6 +457,51 @@ impl<'a, 'b> Gen<'a, 'b> {
                 }
             }
         }
+        // container primitives over a bound container variable: the match depends on the container's CONTENTS
+        // (not on an interned literal), e.g. (= (vec-get v 0) x), (set-contains v x), (= n (vec-length v))
+        if self.cfg.containers && self.src.chance(1, 3) {
+            let cvars: Vec<(String, usize)> = env.iter().filter_map(|(v, t)| if let Ty::Cont(c) = t { Some((v.clone(), *c)) } else { None }).collect();
+            if !cvars.is_empty() {
+                let (v, ci) = self.src.pick(&cvars).clone();
+                let decl = self.sig.conts[ci].clone();
+                let elem_term = |g: &mut Self, env: &Env| -> Option<Term> {
+                    match &decl.elem {
+                        Ty::Eq(_) => {
+                            if g.src.bool() {
+                                if let Some(x) = g.pick_var(env, &decl.elem) {
+                                    return Some(Term::Var(x));
+                                }
+                            }
+                            let leaves: Vec<Term> = g.pool.iter().filter(|(t, x)| *t == decl.elem && x.size() == 1).map(|(_, x)| x.clone()).collect();
+                            if leaves.is_empty() { None } else { Some(g.src.pick(&leaves).clone()) }
+                        }
+                        _ => None,
+                    }
+                };
+                match (decl.kind, self.src.below(3)) {
+                    (ContKind::Vec, 0) | (ContKind::Vec, 1) => {
+                        if let Some(e) = elem_term(self, env) {
+                            body.push(Fact::Eq(Term::Prim("vec-get".into(), vec![Term::Var(v), Term::I(self.src.range(0, 1))]), e));
+                        }
+                    }
+                    (ContKind::Vec, _) => {
+                        let n = self.fresh_var();
+                        env.push((n.clone(), Ty::I64));
+                        body.push(Fact::Eq(Term::Var(n), Term::Prim("vec-length".into(), vec![Term::Var(v)])));
+                    }
+                    (ContKind::Set, _) => {
+                        if let Some(e) = elem_term(self, env) {
+                            body.push(Fact::T(Term::Prim("set-contains".into(), vec![Term::Var(v), e])));
+                        }
+                    }
+                    (ContKind::MultiSet, _) => {
+                        if let Some(e) = elem_term(self, env) {
+                            body.push(Fact::T(Term::Prim("multiset-contains".into(), vec![Term::Var(v), e])));
+                        }
+                    }
+                }
+            }
+        }
         // guards
         let ints: Vec<String> = env.iter().filter(|(_, t)| *t == Ty::I64).map(|(v, _)| v.clone()).collect();
         if !ints.is_empty() && self.src.chance(1, 3) {
@@ -1050,7 +1095,18 @@ impl<'a, 'b> Gen<'a, 'b> {
         } else {
             vec![Action::Union(y.clone(), x.clone())]
         };
-        cmds.push(Cmd::Rule { body: vec![Fact::Eq(y.clone(), Term::App(w, vec![cp]))], head, opts: RuleOpts::default() });
+        let direct_vec = self.sig.conts[ci].kind == ContKind::Vec && self.sig.conts[ci].elem == Ty::Eq(0);
+        if direct_vec && self.src.bool() {
+            // contents read through a non-interning primitive: no container literal in the query
+            let v = Term::Var("sv".into());
+            cmds.push(Cmd::Rule {
+                body: vec![Fact::Eq(y.clone(), Term::App(w, vec![v.clone()])), Fact::Eq(Term::Prim("vec-get".into(), vec![v, Term::I(0)]), elem_pat.clone())],
+                head,
+                opts: RuleOpts::default(),
+            });
+        } else {
+            cmds.push(Cmd::Rule { body: vec![Fact::Eq(y.clone(), Term::App(w, vec![cp]))], head, opts: RuleOpts::default() });
+        }
         self.note_rule(rs, true);
         if self.src.bool() {
             cmds.push(Cmd::Sched(Sched::Saturate(vec![Sched::Run { rs: None, until: vec![] }])));
